@@ -1152,6 +1152,75 @@ impl<'a> Gen<'a> {
     }
 }
 
+/// The "read before assign" shape family: one always_comb over a fresh variable `a` and a fresh
+/// output `o` — partial writes of `a`, reads of *other* sub-ranges of `a` (into `o`, or back into
+/// `a`), later wider / covering writes, in sequence and inside branches. These are the shapes on
+/// which the two terms of `check_refered` (`ref & mask != 0`, `ref & mask & assign == 0`) disagree
+/// with their neighbours (`mask & assign == 0`, `ref & mask & !assign != 0`, …).
+fn rba_steps(g: &mut Gen, a: usize, o: usize, w: u32, depth: u64) -> Vec<Stmt> {
+    fn sub(g: &mut Gen, w: u32) -> Mask {
+        match g.rng.below(6) {
+            0 => full(w),
+            1..=2 => 1u128 << g.rng.below(w as u64),
+            _ => {
+                let lo = g.rng.below(w as u64) as u32;
+                let hi = g.rng.range(lo as u64, (w - 1).min(lo + 3) as u64) as u32;
+                full(hi + 1) & !full(lo)
+            }
+        }
+    }
+    let n = g.rng.range(2, 5);
+    let mut b = vec![];
+    for _ in 0..n {
+        match g.rng.below(9) {
+            0..=2 => {
+                let m = sub(g, w);
+                b.push(Stmt::A(vec![], a, m, false));
+            }
+            3..=4 => {
+                let r = sub(g, w);
+                let m = sub(g, w);
+                b.push(Stmt::A(vec![(a, r)], o, m, false));
+            }
+            5 => {
+                // a wider write: from bit 0 up to a random bit, or everything
+                let m = if g.rng.chance(1, 2) { full(w) } else { full(g.rng.range(1, w as u64) as u32) };
+                b.push(Stmt::A(vec![], a, m, false));
+            }
+            6 => {
+                let r = sub(g, w);
+                let m = sub(g, w);
+                b.push(Stmt::A(vec![(a, r)], a, m, false));
+            }
+            _ => {
+                if depth > 0 {
+                    let t = rba_steps(g, a, o, w, depth - 1);
+                    let e = if g.rng.chance(1, 2) { rba_steps(g, a, o, w, depth - 1) } else { vec![] };
+                    if g.rng.chance(2, 3) {
+                        b.push(Stmt::I(vec![], t, e));
+                    } else {
+                        b.push(Stmt::C(vec![], false, vec![t], e));
+                    }
+                }
+            }
+        }
+    }
+    if g.rng.chance(1, 2) {
+        b.push(Stmt::A(vec![], a, full(w), false));
+    }
+    b
+}
+
+fn rba_family(g: &mut Gen, procs: &mut Vec<Proc>) {
+    let w = *g.rng.pick(&[2u32, 2, 3, 4, 8, 8, 16, 33]);
+    let a = g.vars.len();
+    g.vars.push(VarInfo { kind: Kind::Var, width: w, always: false });
+    let o = g.vars.len();
+    g.vars.push(VarInfo { kind: Kind::Out, width: w, always: false });
+    let b = rba_steps(g, a, o, w, 2);
+    procs.push(Proc::K(b));
+}
+
 fn gen_design(rng: &mut Rng) -> Design {
     let nvar = rng.range(3, 7) as usize;
     let mut vars = vec![VarInfo { kind: Kind::In, width: *rng.pick(&[8u32, 8, 16, 64, 65]), always: false }];
@@ -1232,6 +1301,10 @@ fn gen_design(rng: &mut Rng) -> Design {
             let r = g.reads(2);
             procs.push(Proc::K(vec![Stmt::A(r, *v, m, false)]));
         }
+    }
+    // the read-before-assign shape family, in a third of the designs
+    if g.rng.chance(1, 3) {
+        rba_family(&mut g, &mut procs);
     }
     // a sink output that reads (parts of) most internal variables
     if g.rng.chance(9, 10) {
@@ -1535,6 +1608,32 @@ fn count_design(d: &Design, log: &mut Log) {
             Proc::K(b) => {
                 log.count("proc.comb");
                 shapes(b, log);
+                let mut rd = BTreeSet::new();
+                let mut wr = BTreeSet::new();
+                fn rw(b: &[Stmt], rd: &mut BTreeSet<usize>, wr: &mut BTreeSet<usize>) {
+                    for s in b {
+                        match s {
+                            Stmt::A(r, d, _, _) => {
+                                rd.extend(r.iter().map(|x| x.0));
+                                wr.insert(*d);
+                            }
+                            Stmt::I(_, t, e) => {
+                                rw(t, rd, wr);
+                                rw(e, rd, wr);
+                            }
+                            Stmt::C(_, _, arms, d) => {
+                                for a in arms {
+                                    rw(a, rd, wr);
+                                }
+                                rw(d, rd, wr);
+                            }
+                        }
+                    }
+                }
+                rw(b, &mut rd, &mut wr);
+                if rd.intersection(&wr).next().is_some() {
+                    log.count("shape.comb_reads_and_writes_same_variable");
+                }
             }
             Proc::F(b) => {
                 log.count("proc.ff");
